@@ -29,6 +29,7 @@ def faults_for(kind, auto=False):
         return [F('traces_not_ndarray', ANY)]
     if kind in ('cpa', 'dpa', 'part', 'mia', 'tplb', 'tplm', 'tpld'):
         f.append(F('trace_len', INITED))
+        f.append(F('traces_ndim', ANY))               # traces that are not a (traces, samples) matrix: 3-D or 1-D
     if kind in ('cpa', 'dpa', 'part', 'mia', 'tpld'):
         f.append(F('word_count', INITED))
     if kind == 'dpa':
@@ -72,6 +73,8 @@ def inject(ad, fault, rows, pos):
         args = (t, d.astype('float64'))
     elif name == 'class_float_data':
         args = (t, (d % 8).astype('float64'))          # small values: a class set derived from THIS batch would be the 9-class one
+    elif name == 'traces_ndim':
+        args = (np.stack([t, t], axis=2), d) if pos % 2 == 0 else (t[:, 0].copy(), d)
     elif name == 'traces_kernel_refused':
         args = (t.astype(['float16', '>i2', '>f4'][pos % 3]), d)
     elif name == 'tpl_two_words':
